@@ -86,6 +86,31 @@ pub fn history<const LA: usize, const LB: usize, const P1: usize, const P2: usiz
     std::mem::forget(j);
 }
 
+/// As `history`, but the two scratch buffers are vectors of CAPACITY C1 / C2 (full of arbitrary
+/// characters): growth beyond the capacity - which the library only meets for sequences longer
+/// than 20 - is exercised at small scale (C19: every write stays inside the allocation).
+pub fn history_cap<const LA: usize, const LB: usize, const C1: usize, const C2: usize>() {
+    let a: [char; LA] = nd::any_chars();
+    let b: [char; LB] = nd::any_chars();
+    let j = Jaccard::<char>::new();
+    {
+        let (s1, s2) = j.verif_buffers();
+        let mut v1: Vec<char> = Vec::with_capacity(C1);
+        let mut i = 0;
+        while i < C1 { v1.push(nd::any_char()); i += 1; }
+        let mut v2: Vec<char> = Vec::with_capacity(C2);
+        let mut i = 0;
+        while i < C2 { v2.push(nd::any_char()); i += 1; }
+        std::mem::forget(std::mem::replace(&mut *s1.borrow_mut(), v1));
+        std::mem::forget(std::mem::replace(&mut *s2.borrow_mut(), v2));
+    }
+    let s = j.similarity(&a, &b);
+    let (inter, union) = set_counts(&a, &b);
+    assert!(s == expected(inter, union), "C17-H: value depends on earlier buffer contents / capacity");
+    crate::witness!(LA == 0 || LB == 0 || (LA == 1 && LB == 1) || (inter > 0 && inter < union), "end reachable with a partial overlap (where the shape allows one)");
+    std::mem::forget(j);
+}
+
 /// `simple_similarity` on already sorted, deduplicated input (what `similarity` feeds it).
 pub fn simple<const LA: usize, const LB: usize>() {
     let a: [char; LA] = nd::any_chars();
@@ -114,6 +139,7 @@ crate::inst! { [stub_sort_char]
     jac_hist_2_2_0_3 = history<2,2,0,3>; jac_hist_2_2_1_3 = history<2,2,1,3>; jac_hist_2_3_1_5 = history<2,3,1,5>;
     jac_hist_3_3_5_1 = history<3,3,5,1>; jac_hist_3_2_3_2 = history<3,2,3,2>;
     jac_hist_4_4_6_1 = history<4,4,6,1>; jac_hist_4_3_1_6 = history<4,3,1,6>;
+    jac_cap_2_3_1_1 = history_cap<2,3,1,1>; jac_cap_3_2_1_2 = history_cap<3,2,1,2>; jac_cap_2_3_2_2 = history_cap<2,3,2,2>; jac_cap_3_3_2_1 = history_cap<3,3,2,1>;
     jac_simple_3_3 = simple<3,3>; jac_simple_2_4 = simple<2,4>; jac_simple_4_4 = simple<4,4>;
     jac_simple_5_5 = simple<5,5>; jac_simple_0_3 = simple<0,3>; jac_simple_6_6 = simple<6,6>;
 }
